@@ -92,7 +92,7 @@ def run(rep, wd, tier, seed):
     res = core.run_tlc('MC_PinBlock', cfg, wd, workers=core.NCPU, timeout=3000)
     core.require_ok(res, 'MC_PinBlock')
     rep.add_tlc('MC_PinBlock exhaustive', res)
-    n = 4000 if tier == 'thorough' else 360
+    n = 20000 if tier == 'thorough' else 360
     ncipher = 1 if tier == 'thorough' else 3
     from .isocheck import _pool
     outs = _pool(_drive, [(seed, p, ncipher) for p in core.split(list(range(n)), core.NCPU)])
